@@ -1976,8 +1976,23 @@ def snapshot(R, X, kind):
             # maps, c5 = sqrt(-3) is written for a = 0 or b = 0 only)
             S = R.S
             c = [R.fp_raw(S.vf_x18_ptr(1, i)) for i in range(5)]
-            P["map"] = [R.fp_raw(S.vf_x18_ptr(0, 0)), c[0], c[2], c[3]] + ([] if P["ctmap"] else [c[1]]) + \
-                       ([c[4]] if (P["a"] == 0 or P["b"] == 0) and not P["super"] else [])
+            # judged by behaviour, not by the raw constants (which of them an installation writes is an implementation
+            # detail: a constant this curve's map never reads may legitimately keep a leftover of the previous curve):
+            # the images of two fixed messages under the configured map
+            P["map"] = []
+            if R.has("ep_map"):
+                for msg in (b"", b"relic-verif C18 map probe \x00\x01\x02"):
+                    o_ = R.ep_new()
+                    b_ = R.put(msg if msg else b"\0")
+                    r_ = R.call("ep_map", o_, b_, len(msg))
+                    if not r_.caught:
+                        R.call("ep_norm", o_, o_)
+                        x_, y_, z_, _, _ = R.ep_get(o_)
+                        P["map"] += [x_, y_, z_]
+                    else:
+                        P["map"].append(-1)
+                    R.free(o_)
+                    R.free(b_)
             if P["ctmap"] and "off_iso_st_a" in X:
                 iso = ptr_fn(R, "ep_curve_get_iso")()
                 degs = [R.rd_int(iso + X["off_iso_st_deg_" + k_]) for k_ in ("xn", "xd", "yn", "yd")]
@@ -2029,7 +2044,7 @@ def check_curve_after(ob, R, X, nm, v, hist, ref):
     ob("flags-unchanged", lambda: unchanged({k_: P[k_] for k_ in ("endom", "pairf", "super", "ctmap", "opt_a", "opt_b",
                                                                   "level", "embed")}, ref))
     # the map constants are recomputed by every installation: their defining equations are judged by group 'map' of part
-    # 'ep' on the plain selection; after a history they must be those same values (internal representation included)
+    # 'ep' on the plain selection; after a history the configured map must send fixed messages to the same points
     ob("map-constants-unchanged", lambda: (P["map"] == ref["map"] and P.get("iso") == ref.get("iso"),
                                            {"observed": [hx(t) for t in P["map"]], "first-selection": [hx(t) for t in ref["map"]]}))
     ob("field-prime", lambda: (is_prime(p) and p.bit_length() == R.K["RLC_FP_BITS"], {"p": hx(p)}))
